@@ -108,7 +108,9 @@ func gen(r *verifsim.Rng, tier string) (any, hx.Sched) {
 		"getclass_ci", "getfunc_bs", "loadpkg_bs", "getconst_bs", "addns", "findfile", "regreflect", "newobj", "newobj",
 		// definitions made the way request handlers make them: by parsing source on a parser clone
 		// (registration at parse time), and through script builtins executed on the shared VM
-		"pclass", "piface", "pfunc", "sdefine", "sgetconst", "sclassexists", "sfuncexists", "sifaceexists"}
+		"pclass", "piface", "pfunc", "sdefine", "sgetconst", "sclassexists", "sfuncexists", "sifaceexists",
+		// a script requires a file (require_once) and uses what the file declares straight away
+		"srequire", "srequire"}
 	// swarm: disable a random subset of kinds
 	var enabled []string
 	for _, k := range kinds {
@@ -130,6 +132,9 @@ func gen(r *verifsim.Rng, tier string) (any, hx.Sched) {
 			}
 			if k == "allclasses" || k == "allfuncs" {
 				name = ""
+			}
+			if k == "srequire" {
+				name = verifsim.Pick(r, []string{"Ra", "Rb"})
 			}
 			ops = append(ops, Op{k, name})
 		}
@@ -191,7 +196,9 @@ func fixture() string {
 	if fixtureDir != "" {
 		return fixtureDir
 	}
-	dir := filepath.Join(filepath.Dir(os.Args[0]), fmt.Sprintf("c10fx-%d", os.Getpid()))
+	// fixed-width names: a path that is one character longer costs the lexer one more iteration, and a
+	// task that lexes a script containing it would reach its preemption points elsewhere
+	dir := filepath.Join(filepath.Dir(os.Args[0]), fmt.Sprintf("c10fx-%08d", os.Getpid()%100000000))
 	if err := os.MkdirAll(dir, 0o755); err != nil {
 		panic(err)
 	}
@@ -205,6 +212,21 @@ func fixture() string {
 		os.WriteFile(filepath.Join(dir, sub, n+".php"), []byte(src), 0o644)
 	}
 	fixtureDir = dir
+	return dir
+}
+
+var reqSeq int
+
+// reqFixture writes the files that scripts require into a directory of their own for every case: the
+// interpreter remembers required paths in a package-level table, and a path seen by an earlier case of
+// this worker would make the case depend on the worker's history
+func reqFixture() string {
+	reqSeq++
+	dir := filepath.Join(fixture(), fmt.Sprintf("req%08d", reqSeq))
+	os.MkdirAll(dir, 0o755)
+	for _, n := range []string{"Ra", "Rb"} {
+		os.WriteFile(filepath.Join(dir, n+".php"), []byte(fmt.Sprintf("<?php\nclass Req%s {\n  public function name() { return \"%s\"; }\n}\nfunction req_%s() { return 1; }\n", n, n, strings.ToLower(n))), 0o644)
+	}
 	return dir
 }
 
@@ -270,6 +292,15 @@ func exec(t *testing.T, x any, s hx.Sched) *hx.Outcome {
 			}
 		}
 		return "found:?"
+	}
+	reqDir := ""
+	for _, ops := range w.Tasks {
+		for _, op := range ops {
+			if op.K == "srequire" && reqDir == "" {
+				reqDir = reqFixture()
+				defer os.RemoveAll(reqDir)
+			}
+		}
 	}
 	// script-level operations report their result through __r(task, value)
 	srets := make([]string, len(w.Tasks))
@@ -360,6 +391,13 @@ func exec(t *testing.T, x any, s hx.Sched) *hx.Outcome {
 						ret = srets[ti]
 						if r0 != "ok" || ret == "" {
 							ret = "failed:" + r0
+						}
+					case "srequire":
+						srets[ti] = ""
+						r0 := parseOn(ti, fmt.Sprintf("<?php\nrequire_once %q;\n__r(%d, (class_exists(\"Req%s\") && function_exists(\"req_%s\")) ? \"exists\" : \"notfound\");\n", filepath.Join(reqDir, op.N+".php"), ti, op.N, strings.ToLower(op.N)), "/c10s/"+id+".php")
+						ret = srets[ti]
+						if r0 != "ok" || ret == "" {
+							ret = "failed:" + strings.ReplaceAll(r0, reqDir, "<req>")
 						}
 					case "sclassexists", "sfuncexists", "sifaceexists":
 						fn := map[string]string{"sclassexists": "class_exists", "sfuncexists": "function_exists", "sifaceexists": "interface_exists"}[op.K]
@@ -554,6 +592,8 @@ func partitionKey(p hx.HOp) string {
 		return "load:" + name
 	case "findfile":
 		return "find:" + name
+	case "srequire":
+		return "require:" + name
 	}
 	return ""
 }
@@ -632,6 +672,9 @@ var regModel = porcupine.Model{
 			return strings.HasPrefix(out, "found:"), st
 		case "findfile":
 			return out == "true", st
+		case "srequire":
+			// after require_once returned, what the file declares exists, under every sequential order
+			return out == "exists", st
 		}
 		return true, st
 	},
@@ -696,6 +739,9 @@ func classify(h []porcupine.Operation) string {
 		}
 		if i.kind == "getorload" && strings.HasPrefix(q.Output.(string), "error:") {
 			loadErr = true
+		}
+		if i.kind == "srequire" && q.Output.(string) != "exists" {
+			return "declarations-missing-after-require"
 		}
 		if i.kind == "newobj" && strings.HasPrefix(q.Output.(string), "object:missing=") && q.Output.(string) != "object:missing=0" {
 			return "incomplete-object"
